@@ -90,10 +90,12 @@ def step (line : String) : String :=
         -- final positioning in design units (no font): `Segment::finalise` -> positionSlots
         let pr := GrVerif.Pos.positionSlots seg 1 l
         let showR (q : Rat) : String := if q.den = 1 then toString q.num else s!"{q.num}/{q.den}"
+        -- `Segment::finalise` ends with linkClusters: the bases are chained through `sibling`
+        let segF := linkClusters seg 0
         let slots := l.map fun i =>
           let sl := seg.get i
           let o := pr.2.getPos i
-          s!"s:{sl.gid},{sl.before},{sl.after},{sl.original},{posIn l sl.parent},{posIn l sl.child},{showR o.1},{showR o.2},{sl.advX}"
+          s!"s:{sl.gid},{sl.before},{sl.after},{sl.original},{posIn l sl.parent},{posIn l sl.child},{posIn l (segF.get i).sibling},{showR o.1},{showR o.2},{sl.advX}"
         let tb := String.join ((ps.splitOn "|").zip passes |>.map fun (src, p) => trieBit p (parsePats src))
         String.intercalate " " (s!"trie={tb} loop={cx.vIter}/{cx.vBound} passes={cx.vCalls} exceeded={if cx.vExceeded then 1 else 0} n={seg.numGlyphs} walk={l.length} adv={showR pr.1.1},{showR pr.1.2}" :: slots)
     | _, _, _, _, _ => "bad-op"
